@@ -62,8 +62,8 @@ def strat(tier):
         solve = st.builds(lambda i, N, sv, mon, rep, ci: dict(op="solve", field=i, N=N, saves=sv, mon=mon, repeat=rep, cfl=ci), st.integers(0, 2), st.integers(1, 6),
                           st.one_of(st.none(), st.lists(gen.f(0.02, 0.98), min_size=1, max_size=4)), _monitors(kind), st.booleans(), cidx)
         restart = st.builds(lambda M, mon, ci: dict(op="restart", M=M, mon=mon, cfl=ci), st.integers(1, 5), _monitors(kind), cidx)
-        def mk(L, num, integ, cfl, cfl2, fields, ctor, calls, shared):
-            d = dict(model=md, flux=fl, num=num, integ=integ, cfl=cfl, cfl2=cfl2, fields=fields, ctor_mon=ctor, calls=calls, shared_stop=shared)
+        def mk(L, num, integ, cfl, cfl2, fields, ctor, calls, shared, dtl=False):
+            d = dict(model=md, flux=fl, num=num, integ=integ, cfl=cfl, cfl2=cfl2, fields=fields, ctor_mon=ctor, calls=calls, shared_stop=shared, dtlocal=dtl)
             if kind == "euler2d":
                 d["mesh2d"] = dict(nx=n[0], ny=n[1], lx=L, ly=1.0)
                 d["num"] = dict(name="extrapol2d1") if num["name"] != "extrapol3" else dict(name="extrapol2dk", k=1.0 / 3.0)
@@ -75,7 +75,7 @@ def strat(tier):
         return st.builds(mk,
                          st.one_of(gen.logf(-1, 1), gen.logf(-1, 1), gen.logf(-9, 3)), st.sampled_from([dict(name="extrapol1"), dict(name="extrapol3"), dict(name="muscl", limiter="minmod")]),
                          st.sampled_from(ex + im + ["gear", "gear"]), gen.f(0.1, 0.8), gen.f(0.1, 0.8), _fields(kind), st.booleans(), st.builds(lambda first, rest: [first] + rest, solve, st.lists(st.one_of(solve, solve, restart), min_size=1, max_size=4)),
-                         st.booleans())
+                         st.booleans(), st.sampled_from([False, False, True]))
     return _problem().flatmap(hist)
 
 
@@ -83,17 +83,25 @@ class Chain(object):
     """reference computation: a FRESH solver object of the same class stepping a field (calc_timestep -> step); a restart continues the chain
     (same object, so a multistep history carries over exactly as restart() promises), possibly with another CFL number"""
 
-    def __init__(self, P, integ, field):
+    def __init__(self, P, integ, field, dtlocal=False):
         self.P = P
+        self.dtlocal = dtlocal
         self.solver = cases.build_integrator(integ, P.mesh, P.disc)
         self.states = [field.copy()]
 
     def advance(self, cfl, k):
         for _ in range(k):
             g = self.states[-1].copy()
-            sim.advance(self.solver, self.P.disc, g, cfl)
+            sim.advance(self.solver, self.P.disc, g, cfl, dtlocal=self.dtlocal)
             self.states.append(g)
         return self.states
+
+
+def _blown_up(states):
+    """an unstable configuration (e.g. per-cell time steps on spiky data with a high-order scheme): the solution grows by orders of magnitude and the time steps collapse,
+    iteration counts up to a given time are then a matter of round-off.  Not judged."""
+    m0 = max(float(np.max(np.abs(d))) for d in states[0].data)
+    return any((not np.all(np.isfinite(d))) or float(np.max(np.abs(d))) > 100.0 * m0 for s_ in states for d in s_.data)
 
 
 def _eq(a, b, tol):
@@ -167,6 +175,9 @@ def _judge_monitors(P, md, mon, states, it0, what):
                 floor = max(float(np.max(x)) for x in sim.natural_scales(md, prim)) / float(np.min(P.dxf))      # natural size of a residual
             else:
                 ref, floor = _avg(P, s_, par["data"], md, True)
+            if not np.isfinite(ref):          # a run that overflows (unstable configuration): the record overflows as well, nothing to compare
+                require(not np.isfinite(v), "monitor-value", "%s: monitor %r at iteration %d has value %r although the state at that iteration gives a non-finite value" % (what, key, it, v))
+                continue
             require(abs(v - ref) <= 1e-9 * abs(ref) + 1e-12 * floor, "monitor-value", "%s: monitor %r (%s) at iteration %d has value %r, the state at that iteration gives %r" % (what, key, mtype, it, v, ref))
 
 
@@ -206,6 +217,9 @@ def check(case):
             return {"maxit": n}
         shared["maxit"] = n
         return shared
+    # the whole history may run with the per-cell time-step directive (not gear: its BDF2 recurrence is stated for one step size)
+    dtl = bool(case.get("dtlocal")) and "gear" not in integ
+    dkw = {"directives": {"dtlocal": True}} if dtl else {}
     last = None        # (field index, total iterations, returned final field) of the last call when it returned the final state
     ncalls, rich = 0, 0
     labels = ["integ:" + integ, "model:" + md["name"], "implicit" if implicit else "explicit"]
@@ -220,10 +234,11 @@ def check(case):
             M = call["M"]
             cfl = cfls[call.get("cfl", 0)]
             states = chain.advance(cfl, M)
-            if not all(sim.admissible(P.smd, s_.data) for s_ in states):
+            if not all(sim.admissible(P.smd, s_.data) for s_ in states) or _blown_up(states):
                 raise Skip("trajectory leaves the admissible set")
             what = "call %d: restart(M=%d) after %d iterations from field %d (%s, cfl=%g)" % (ci, M, Ntot, i, integ, cfl)
             kw = {} if mon is None else {"monitors": mon}
+            kw.update(dkw)
             res = S.restart(flast, cfl, stop=stopd(M), **kw)
             require(len(res) == 1, "restart-returns-final", "%s returns %d fields" % (what, len(res)))
             ref = states[Ntot + M]
@@ -238,13 +253,14 @@ def check(case):
             continue
         i, N = call["field"], call["N"]
         cfl = cfls[call.get("cfl", 0)]
-        chain = Chain(P, integ, fields[i])
+        chain = Chain(P, integ, fields[i], dtl)
         states = chain.advance(cfl, N)
-        if not all(sim.admissible(P.smd, s_.data) for s_ in states):
+        if not all(sim.admissible(P.smd, s_.data) for s_ in states) or _blown_up(states):
             raise Skip("trajectory leaves the admissible set")
         f0 = fields[i]
         keep = sim.copy_data(f0)
         kw = {} if mon is None else {"monitors": mon}
+        kw.update(dkw)
         if call["saves"] is None:
             what = "call %d: solve(field %d, maxit=%d%s) (%s, cfl=%g)" % (ci, i, N, ", monitors" if mon else "", integ, cfl)
             res = S.solve(f0, cfl, stop=stopd(N), **kw)
@@ -256,7 +272,7 @@ def check(case):
             require(res[0].it == N, "returned-it", "%s: the returned field carries it = %r, expected %d" % (what, res[0].it, N))
             _judge_monitors(P, md, mon, states[:N + 1], 0, what)
             if call["repeat"]:
-                res2 = S.solve(f0, cfl, stop=stopd(N))
+                res2 = S.solve(f0, cfl, stop=stopd(N), **dkw)
                 require(_eq(res2[0], res[0], None), "repeat-bit-identical", "%s repeated on the same solver object differs by %.3g" % (what, _diff(res2[0], res[0])))
                 labels.append("repeat")
                 res = res2
@@ -274,10 +290,10 @@ def check(case):
             require(S.nit() == N, "saves-iteration-count", "%s: nit() = %d" % (what, S.nit()))
             # same call without the intermediate save times: model (fresh object) and the same object
             fresh = cases.build_integrator(integ, P.mesh, P.disc)
-            ref = fresh.solve(f0, cfl, [T], stop={"maxit": 2000})
+            ref = fresh.solve(f0, cfl, [T], stop={"maxit": 2000}, **dkw)
             require(len(ref) == 1, "model-sanity", "reference solve returns %d snapshots" % len(ref))
             require(_eq(res[-1], ref[0], xtol), "saving-does-not-change-trajectory", "%s: the final snapshot differs from the run that only saves the final time by %.3g" % (what, _diff(res[-1], ref[0])))
-            same = S.solve(f0, cfl, [T], stop={"maxit": 2000})
+            same = S.solve(f0, cfl, [T], stop={"maxit": 2000}, **dkw)
             require(_eq(res[-1], same[0], None), "saving-does-not-change-trajectory-same-object", "%s: on the same solver object the final snapshot differs from the run without intermediate saves by %.3g" % (what, _diff(res[-1], same[0])))
             _judge_monitors(P, md, mon, states[:N + 1], 0, what)
             last = None
@@ -291,6 +307,7 @@ def check(case):
         labels.append("ctor-monitor")
     if shared is not None:
         labels.append("shared-stop-dict")
+    labels.append("dtlocal" if dtl else "dtglobal")
     return dict(nontrivial=bool(ncalls >= 2 and rich >= 1), labels=sorted(set(labels)))
 
 
